@@ -223,8 +223,14 @@ class World:
             self.clients[i] = c
             self.all.append(c)
             free = not self.ctx.db_lock
+            # the label a client gives itself is free text (comms.acquire's
+            # argument); generated: unique, shared with another client, empty
+            label = [c.name, 'update: T.p.A', '', c.name][
+                (op[2] if len(op) > 2 else 0) % 4]
+            if label != c.name:
+                out.label('label-' + ('empty' if not label else 'shared'))
             c.w.dataReceived(
-                _frame(self.comms.COMMAND(Func.acquire, None, None, c.name)))
+                _frame(self.comms.COMMAND(Func.acquire, None, None, label)))
             self.pump(out, where)
             if free and not c.told:
                 out.fail('progress/free-lock-not-granted-at-poll',
@@ -367,6 +373,58 @@ class _Starved(Exception):
     pass
 
 
+def _client_copy(case, w, out, blocked):
+    '''a database copy (Func.dbcopy -> Worker._do_copy) competes for the lock
+    like any client, closes and reopens the database while it holds it, and
+    lets go; whoever was waiting before must still be served afterwards'''
+    from dawgie.db.shelve.enums import Method
+    from dawgie.db.shelve.state import DBI
+
+    out.label('database-copy')
+    cw = w.comms.Worker(world.Address('copier', 5999))
+    ct = world.Transport()
+    cw.makeConnection(ct)
+    waiting = [c for c in w.all if c.alive and not c.told and not c.released]
+    known = list(w.all)
+    # the staging directory (mkdir through a shell) is not part of the property
+    real_staging = w.comms.util.make_staging_dir
+    w.comms.util.make_staging_dir = lambda: None
+    try:
+        cw._do_copy([Method.connector, None])
+    except _Starved:
+        w.comms.util.make_staging_dir = real_staging
+        out.fail('progress/client-starves',
+                 f'the copy still waits for the lock after {blocked[0]} poll '
+                 f'periods; db_lock={w.ctx.db_lock}')
+        return out
+    finally:
+        w.comms.util.make_staging_dir = real_staging
+    got = world.frames(ct.data)
+    if not got or not isinstance(got[-1], dict):
+        out.fail('copy/no-answer', f'{got!r:.200}')
+    if not DBI().is_open:
+        out.fail('copy/database-left-closed', '')
+    for c in [c for c in w.all if c not in known]:
+        # the copy's own lock connection: comms.acquire / release read its
+        # frames themselves; it has released and closed by now
+        if c.flag():
+            out.fail('copy/lock-not-released', c.name)
+        c.seen = len(world.frames(c.t.data))
+        c.told = False
+        c.released = True
+        c.was_told_at_release = True
+        c.alive = False
+        c.lost_delivered = True
+    w.pump(out, 'copy done')
+    w.invariants(out, 'after copy')
+    still = [c for c in waiting if c.alive and not c.told and not c.released]
+    if still:
+        out.label('waiter-spans-the-copy')
+        out.nontrivial = True
+    w.drain(out)
+    return out
+
+
 def exec_client(case):
     '''the client side: comms.acquire() must block until the server says the
     lock is this client's, comms.release() must free it'''
@@ -391,13 +449,17 @@ def exec_client(case):
     def pump(sock):
         # the client would block here: let time pass, maybe free the lock
         blocked[0] += 1
+        phase = case.get('phase', 0.0)
+        if phase:
+            w.do(['adv', phase], out)
         if blocked[0] >= case['free_after']:
-            # holders (the first one and whoever is granted next) let go
+            # holders (the first one and whoever is granted next) let go,
+            # somewhere inside the poll period: who polls next is generated
             for h in [c for c in w.all if c.told]:
                 w.do(['rel', h.idx] if case['how'] else ['drop', h.idx], out)
         if blocked[0] > case['free_after'] + NCLIENT + 3:
             raise _Starved()
-        w.do(['adv', 3.0], out)
+        w.do(['adv', 3.0 - phase], out)
 
     sec.connect = connect
     rig.PUMP[0] = pump
@@ -408,6 +470,8 @@ def exec_client(case):
         if held_before:
             out.nontrivial = True
             out.label('acquire-while-held')
+        if case.get('copy'):
+            return _client_copy(case, w, out, blocked)
         try:
             s = w.comms.acquire('client')
         except _Starved:
@@ -447,7 +511,7 @@ def exec_client(case):
 _small = st.integers(0, NCLIENT - 1)
 _op = st.one_of(
     st.tuples(st.just('acq'), _small).map(list),
-    st.tuples(st.just('acq'), _small).map(list),
+    st.tuples(st.just('acq'), _small, st.integers(0, 3)).map(list),
     st.tuples(st.just('adv'), st.sampled_from(
         [0.25, 0.5, 0.9, 1.0, 1.1, 2.0, 3.0, 3.0, 4.0, 7.0])).map(list),
     st.tuples(st.just('adv'), st.sampled_from(
@@ -459,10 +523,18 @@ _word = st.fixed_dictionaries({'ops': st.lists(_op, min_size=3, max_size=30)})
 _short = st.fixed_dictionaries({'ops': st.lists(_op, min_size=3, max_size=12)})
 
 
+_acq = st.tuples(st.just('acq'), _small, st.integers(0, 3)).map(list)
+_adv = st.tuples(st.just('adv'), st.sampled_from(
+    [0.25, 0.5, 0.9, 1.0, 1.1, 2.0])).map(list)
 _client = st.fixed_dictionaries({
-    'pre': st.lists(_op, min_size=0, max_size=8),
+    # contention first: several clients queue up at generated poll phases
+    'pre': st.one_of(
+        st.lists(_op, min_size=0, max_size=8),
+        st.lists(st.one_of(_acq, _acq, _adv), min_size=2, max_size=7)),
     'free_after': st.integers(1, 4),
     'how': st.integers(0, 1),
+    'copy': st.sampled_from([0, 1]),
+    'phase': st.sampled_from([0.0, 0.5, 1.5, 2.75, 2.75, 2.875]),
 })
 
 
@@ -472,7 +544,7 @@ def parts(tier):
         core.Part('words', exec_word, strategy=_word,
                   cases=4000 if q else 120000, batch=500),
         core.Part('client', exec_client, strategy=_client,
-                  cases=800 if q else 20000, batch=200),
+                  cases=2400 if q else 40000, batch=200),
         core.Part('crash', exec_crash, strategy=_short,
                   cases=240 if q else 6000, batch=60),
     ]
